@@ -68,6 +68,7 @@ def scenarios(layout):
         s.append("gap-to-jan1")
     if layout == 0:
         s.append("runaway-year-counter")   # series stops in January: JTAG stays tiny, the year counter passes 2100 and re-opens old files
+        s.append("rollovers-past-131")     # regression F31: > 200 year roll-overs with the annual output day reached: the process survives
         s.append("leap-then-two-years")    # per-year files over a leap year and two more years: JTAG must follow each file
     if layout != 2:
         s.append("wind-height")        # three-line header with a wind measuring height other than 2 m, calm days
@@ -81,6 +82,8 @@ def make_case(rnd, idx, layout, scen, long_spans=False):
     span = rnd.randrange(380, 800) if scen != "preco" else rnd.randrange(560, 800)     # preco: reach the leap year's month ends
     if long_spans and rnd.random() < 0.3:
         span = rnd.randrange(800, 2200)
+    if scen == "rollovers-past-131":
+        sy = 2011
     if scen == "runaway-year-counter":
         sy = rnd.choice([2003, 2007, 2011, 2019, 2023])      # extensions "0jj": the counter reaches 21xx/22xx and finds the old names
         span = rnd.randrange(1700, 2000)
@@ -90,6 +93,10 @@ def make_case(rnd, idx, layout, scen, long_spans=False):
     if scen == "leap-then-two-years":
         start = D(sy, rnd.randrange(1, 13), rnd.randrange(1, 28)); end = start + datetime.timedelta(days=span)
         ann = D(end.year, ann.month, min(ann.day, 28))
+    if scen == "rollovers-past-131":
+        # the 2012 file ends on 8 January (JTAG 8): a roll-over every 8 days, annual output on 5 January = reached in every "year";
+        # g.AUS/SIC/AUFNA have 131 slots (run.go:717, repaired as F31): more than 200 roll-overs must not end the process
+        start, end, ann = D(2011, 12, 31), D(2016, rnd.randrange(6, 13), rnd.randrange(1, 28)), D(2016, 1, 5)
     if scen == "annual-31dec-covered":
         # annual output on 31 December: ENDE is moved to 1 January of the year after the end year, the series covers that day
         if rnd.random() < 0.3:
@@ -128,7 +135,9 @@ def make_case(rnd, idx, layout, scen, long_spans=False):
                 wxlib.put_sentinel(ser, dd, col, none)
     if rnd.random() < 0.3:
         ser[0][1]["tavg"] = none
-    if scen == "runaway-year-counter":
+    if scen == "rollovers-past-131":
+        ser = [(d, r) for d, r in ser if d <= D(2012, 1, 8)]
+    elif scen == "runaway-year-counter":
         cut = D(start.year + 1, 1, rnd.randrange(3, 25))
         ser = [(d, r) for d, r in ser if d <= cut]
     elif scen == "truncated":
@@ -170,70 +179,7 @@ def make_case(rnd, idx, layout, scen, long_spans=False):
     elif scen == "preco":
         c["preco"] = ["%4.2f" % rnd.uniform(0.9, 1.3) for _ in range(12)]
     c["series"] = ser
-    _cap_rollovers(c)
     return c
-
-
-def _ext_alias(year):
-    """path.go yearToExtension as a key: years whose per-year file has the same name"""
-    j = year - 1900
-    s = str(j)
-    return "0" + s[1:3] if j >= 100 else "9" + s
-
-
-def _cap_rollovers(c, limit=110):
-    """run.go indexes g.AUS[JZ] (131 slots) with the number of year roll-overs; a deficient weather input makes the year counter
-    run away (F9) and the process would die with an index panic after 130 roll-overs.  The generated F9 scenarios stay below
-    that: this replays the calendar stepping (generation aid only, nothing is compared with it) and moves the end date."""
-    if c["anjahr"] != c["start"].year:
-        return
-    ser = [(d, r) for d, r in c["series"] if d.year not in c["skip_years"]]
-    by_year = {}
-    for d, r in ser:
-        by_year.setdefault(d.year, []).append(doy(d))
-    if c["layout"] == 0:
-        files = {}
-        for y, ds in by_year.items():
-            n = 0
-            for k, v in enumerate(ds):
-                if v != k + 1:
-                    break
-                n = k + 1
-            files[_ext_alias(y)] = (ds[0] == 1, n)
-        state = {"maxd": 0}
-
-        def load(year, jtag):
-            f = files.get(_ext_alias(year))
-            if f is None:
-                return jtag                       # WetterK fails, JAR[0] is the previous year: LoadYear fails
-            if f[0]:
-                state["maxd"] = f[1]
-            return state["maxd"]                  # first line not day 1: MaxYearDays keeps its old value
-    else:
-        nslots = c["eff"].year - c["anjahr"] + 1
-        kept = sorted(y for y in by_year if y >= c["anjahr"])[:max(nslots, 0)]
-        maxd = {y: by_year[y][-1] for y in kept}
-
-        def load(year, jtag):
-            return maxd.get(year, jtag)
-    tag, j, jz = doy(c["start"]) - 2, c["anjahr"] - 1900, 1
-    jtag = load(c["anjahr"], 0)
-    z = c["start"]
-    while z <= c["eff"]:
-        tag += 1
-        if tag + 1 > jtag:
-            j += 1; jz += 1; tag = 0
-        if tag == 0:
-            jtag = load(1900 + j, jtag)
-        if jz > limit:
-            newend = max(c["start"] + datetime.timedelta(days=5), z - datetime.timedelta(days=3))
-            c["end"] = newend
-            c["ann"] = D(newend.year, 1, 1) if newend > D(newend.year, 1, 1) else newend
-            if c["ann"] >= c["end"]:
-                c["ann"] = c["end"] - ONE if (c["end"] - ONE).year == c["end"].year else c["end"]
-            c["eff"] = _ende_eff(c["end"], c["ann"])
-            return
-        z += ONE
 
 
 def gen_cases(ctx):
